@@ -94,6 +94,8 @@ def make_script(rng, bursts):
             ops.append(("state",))
             ops.append(("tick", fn))
             fn = (fn + 1) % W.H
+        if rng.chance(1, 12):
+            ops.append(("ctrl", rng.below(2), W.rejected_cmd(rng)))      # refused / ignored: the simulation parameters stay as they are
     ops.append(("state",))
     return [], ops
 
